@@ -84,6 +84,21 @@ def run(ctx):
                 ctx.counterexample("wire-drift", inp, case["bytes"], got.hex(),
                                    "the bytes for a pinned command and values differ from the pinned revision")
                 continue
+            # the order of the fields on the wire is the schema's, whatever order the caller names them in
+            opt = {q.name for q in params if getattr(q, "optional", False)}
+            req_names = [n for n in kw if n not in opt]
+            if len(req_names) >= 2:
+                kw2 = {n: kw[n] for n in reversed(req_names)}
+                kw2.update({n: kw[n] for n in kw if n in opt})
+                try:
+                    got2 = cls(**kw2).to_frame().hl_packet.serialize()[2:]
+                except Exception as ex:
+                    got2 = ("%s: %s" % (type(ex).__name__, ex)).encode()
+                ctx.count("keywords-in-reverse-order")
+                if got2 != want:
+                    ctx.counterexample("wire-drift-keyword-order", dict(inp, keyword_order=list(kw2)), case["bytes"], got2.hex(),
+                                       "the same command and values, named in another keyword order, give other bytes than at the pinned revision")
+                    continue
             if ((v["header"] >> 8) & 0xFF) in (1, 2):
                 # the direction the host parses: the pinned bytes decode to the pinned values and encode back
                 from props import c04
